@@ -1002,3 +1002,14 @@ pub fn load_vacuous_helpers(db: &mut Db, n: usize) {
         db.must(&format!("INSERT INTO keep VALUES {}", chunk.join(", ")));
     }
 }
+
+/// the WHERE predicate for rotation step `k`; tables of more than 200 rows only get the predicates
+/// whose subquery is not evaluated per row against `keep` (those are quadratic in the engine)
+pub fn vac_where(k: usize, table_rows: usize) -> &'static str {
+    if table_rows > 200 {
+        let cheap = [2usize, 3, 5, 6];
+        VAC_WHERE[cheap[k % cheap.len()]]
+    } else {
+        VAC_WHERE[k % VAC_WHERE.len()]
+    }
+}
